@@ -742,3 +742,191 @@ def validate_healthy(ex, d, problems, where):
         if r.variant != 0 or errs:
             problems.append('%s: %s validate of a healthy archive reports %s %s' % (where, 'quick' if quick else 'full',
                                                                                  'Err' if r.variant != 0 else '', errs[:3]))
+
+
+# ============================================================================ C02 kernels
+def make_reuse(prog):
+    """Reuse soundness: a file whose content changed (with a new mtime or size) is never recorded with the old version's
+    addresses.  Basis entry and source entry have solver-chosen mtimes and sizes; content classes differ iff 'changed'."""
+    def mk_():
+        res = {'bad': [], 'samples': []}
+
+        def h(ex):
+            pol = StepPolicy('none')
+            st, ar = A.new_archive(ex, pol)
+            ex.env['policy'], ex.env['store'] = pol, st
+            B_, C_, H_ = 1 << 16, 1 << 8, 1000
+            bs, bn = ex.fresh_int('basis_s', -1000, 4000000000), ex.fresh_int('basis_n', 0, NANOS - 1)
+            ns, nn = ex.fresh_int('new_s', -1000, 4000000000), ex.fresh_int('new_n', 0, NANOS - 1)
+            bsize = ex.fresh_int('basis_size', 1, 1 << 12)
+            nsize = ex.fresh_int('new_size', 1, 1 << 12)
+            changed = ex.branch(ex.fresh_bool('content_changed'), 'content changed?')
+            if changed:
+                # the property's premise: a content change comes with a new mtime or a new size
+                ex.assume(z3.Or(bs != ns, bn != nn, bsize != nsize))
+            else:
+                ex.assume(z3.And(bs == ns, bn == nn, bsize == nsize))
+            st.mode = 'pre'
+            A.put_head(ex, st, 0)
+            hsh = A.put_block(ex, st, Data([(1, 0, bsize)]))
+            ents = [A.mk_entry(ex, '/', 'Dir', 5, mode=0o755),
+                    A.mk_entry(ex, '/a', 'File', bs, addrs=[A.mk_addr(ex, hsh, 0, bsize)], nanos=bn, mode=0o644, owner=A.mk_owner(ex, 'u', None))]
+            A.put_hunk(ex, st, 0, 0, ents)
+            A.put_tail(ex, st, 0, 1)
+            st.mode = 'run'
+            tree = SourceTreeV([SrcFile('/', 'Dir', mtime=TimeV(5, 0), mode=0o755),
+                                SrcFile('/a', 'File', cls=2 if changed else 1, size=nsize, mtime=TimeV(ns, nn), mode=0o644, user='u')])
+            r = run_backup(ex, ar, tree, backup_options(ex, H_, B_, C_, True))
+            problems = []
+            if r[0] != 'ok':
+                problems.append('backup failed')
+            else:
+                check_complete_band(ex, st, 1, tree, problems, 'incremental backup')
+                check_inv(ex, st, {1: {f.path: f for f in tree.files}}, problems, 'incremental backup')
+                unmod = stats_field(ex, r[1], 'unmodified_files')
+                if not changed and unmod != 1:
+                    problems.append('an unchanged file was not reused (unmodified_files=%s)' % unmod)
+            return problems, changed
+
+        def on_path(ex, out):
+            if out[0] == 'panic':
+                res['bad'].append({'kind': 'panic', 'msg': str(out[1])[:200], 'where': out[1].where})
+                return
+            if out[0] != 'ok':
+                return
+            problems, changed = out[1]
+            if problems:
+                r0, m = ex.E.check()
+                res['bad'].append({'kind': 'stale-content' if changed else 'reuse', 'problems': problems[:3], 'changed': changed,
+                                   'model': model_values(m)})
+            elif len(res['samples']) < 2:
+                r0, m = ex.E.check()
+                res['samples'].append({'changed': changed, 'model': {k: v for k, v in (model_values(m) or {}).items() if k.startswith(('basis', 'new'))}})
+        return h, on_path, res
+    return mk_
+
+
+def make_selection(prog, ids):
+    """Version selection: LatestClosed is the newest band with a tail, Latest the newest band, over band-id sets with ids
+    of four and more digits, each band open or closed (solver-chosen)."""
+    resolve = A.fn_by(prog, 'Archive', None, 'resolve_band_id')
+
+    def mk_():
+        res = {'bad': [], 'samples': []}
+
+        def h(ex):
+            st, ar = A.new_archive(ex)
+            closed = {}
+            for b in ids:
+                A.put_head(ex, st, b)
+                A.put_hunk(ex, st, b, 0, [A.mk_entry(ex, '/', 'Dir', 5, mode=0o755)])
+                closed[b] = ex.branch(ex.fresh_bool('closed%d' % b), 'closed?')
+                if closed[b]:
+                    A.put_tail(ex, st, b, 1)
+            st.put_dir('unrelated-dir')
+            st.mode = 'run'
+            out = {}
+            for pol in ('LatestClosed', 'Latest'):
+                r = A.run_async(ex, resolve, [Ref([ar], 0), enum_val(ex, 'band::BandSelectionPolicy', pol)])
+                out[pol] = r.fields[0].fields[0] if r.variant == 0 else 'Err:' + variant_name(ex, r.fields[0])
+            want_closed = max([b for b in ids if closed[b]], default=None)
+            want_latest = max(ids, default=None)
+            problems = []
+            if out['LatestClosed'] != (want_closed if want_closed is not None else 'Err:NoCompleteBands'):
+                problems.append('LatestClosed selects %s, the newest complete version is %s' % (out['LatestClosed'], want_closed))
+            if out['Latest'] != (want_latest if want_latest is not None else 'Err:ArchiveEmpty'):
+                problems.append('Latest selects %s, the newest version is %s' % (out['Latest'], want_latest))
+            return problems, closed
+
+        def on_path(ex, out):
+            if out[0] == 'panic':
+                res['bad'].append({'kind': 'panic', 'msg': str(out[1])[:200], 'where': out[1].where, 'ids': ids})
+                return
+            if out[0] != 'ok':
+                return
+            problems, closed = out[1]
+            if problems:
+                res['bad'].append({'kind': 'selection', 'problems': problems, 'ids': ids, 'closed': closed})
+            elif len(res['samples']) < 1:
+                res['samples'].append({'ids': ids, 'closed': closed})
+        return h, on_path, res
+    return mk_
+
+
+def make_history(prog):
+    """A bounded history: backup(T1); backup(T2 = T1 with /a rewritten and /b added); [interrupted backup of T3]; delete the first
+    version; gc.  After every step every completed version still resolves to exactly its own snapshot."""
+    delete_bands = A.fn_by(prog, 'Archive', None, 'delete_bands')
+
+    def mk_():
+        res = {'bad': [], 'samples': []}
+
+        def h(ex):
+            pol = StepPolicy('none')
+            st, ar = A.new_archive(ex, pol)
+            ex.env['policy'], ex.env['store'] = pol, st
+            st.mode = 'run'
+            B_, C_, H_ = sym_options(ex)
+            s1 = ex.fresh_int('size_a1', 1, None)
+            s2 = ex.fresh_int('size_a2', 1, None)
+            sb = ex.fresh_int('size_b', 0, None)
+            for s_ in (s1, s2, sb):
+                ex.assume(s_ <= 2 * B_)
+            root = lambda t: SrcFile('/', 'Dir', mtime=TimeV(t, 0), mode=0o755)
+            T1 = SourceTreeV([root(1), SrcFile('/a', 'File', cls=1, size=s1, mtime=TimeV(10, 0), mode=0o644),
+                              SrcFile('/c', 'File', cls=3, size=sb, mtime=TimeV(12, 0), mode=0o644)])
+            T2 = SourceTreeV([root(2), SrcFile('/a', 'File', cls=2, size=s2, mtime=TimeV(20, 5), mode=0o644),
+                              SrcFile('/b', 'File', cls=3, size=sb, mtime=TimeV(21, 0), mode=0o600),
+                              SrcFile('/c', 'File', cls=3, size=sb, mtime=TimeV(12, 0), mode=0o644)])
+            snaps = {}
+            problems = []
+
+            def check_all(label):
+                bands, blocks = decode_bands(ex, st)
+                for b, tree in snaps.items():
+                    if b in bands and bands[b]['tail']:
+                        check_complete_band(ex, st, b, tree, problems, label)
+                check_inv(ex, st, {b: {f.path: f for f in t.files} for b, t in snaps.items()}, problems, label)
+            opts = lambda: backup_options(ex, H_, B_, C_, True)
+            r = run_backup(ex, ar, T1, opts())
+            if r[0] != 'ok':
+                raise Unsupported('history: first backup failed')
+            snaps[0] = T1
+            check_all('after backup 1')
+            r = run_backup(ex, ar, T2, opts())
+            if r[0] != 'ok':
+                raise Unsupported('history: second backup failed')
+            snaps[1] = T2
+            check_all('after backup 2')
+            ids = VecV([Agg('bandid::BandId', None, [0])])
+            dopts = mk(ex, 'archive::DeleteOptions', dry_run=False, break_lock=False)
+            ex.env['monitor'].errors.clear()
+            r = A.run_async(ex, delete_bands, [Ref([ar], 0), M.Slice(ids.items, 0, 1), Ref([dopts], 0), A.monitor_arc(ex)])
+            if r.variant != 0:
+                problems.append('deleting the first version failed: %s' % variant_name(ex, r.fields[0]))
+            del snaps[0]
+            check_all('after deleting version 0')
+            r = run_backup(ex, ar, T2, opts())
+            if r[0] != 'ok':
+                problems.append('third backup failed')
+            else:
+                snaps[2] = T2
+                if stats_field(ex, r[1], 'written_blocks') != 0:
+                    problems.append('a backup of the unchanged tree after the delete wrote blocks again')
+            check_all('after backup 3')
+            return problems
+
+        def on_path(ex, out):
+            if out[0] == 'panic':
+                res['bad'].append({'kind': 'panic', 'msg': str(out[1])[:200], 'where': out[1].where})
+                return
+            if out[0] != 'ok':
+                return
+            if out[1]:
+                r0, m = ex.E.check()
+                res['bad'].append({'kind': 'history', 'problems': out[1][:4], 'model': model_values(m)})
+            elif len(res['samples']) < 1:
+                r0, m = ex.E.check()
+                res['samples'].append({'history': 'backup T1; backup T2; delete b0000; backup T2', 'model': model_values(m)})
+        return h, on_path, res
+    return mk_
